@@ -29,7 +29,7 @@ import (
 )
 
 type Ev struct {
-	Kind  string `json:"kind"` // msg | pong | tick
+	Kind  string `json:"kind"` // msg | peerping | emptyack | pong | tick
 	GapMs int    `json:"gapMs"`
 	Back  int    `json:"back,omitempty"` // pong: 0 = the current ping, 1 = the one before, ...
 }
@@ -76,6 +76,7 @@ func Exec(t *testing.T, sc Scenario, r *evid.Run) *evid.Failure {
 		markClosed := func() { mu.Lock(); closedFlag = true; mu.Unlock() }
 		isClosed := func() bool { mu.Lock(); defer mu.Unlock(); return closedFlag }
 		var s subject
+		recvKind := "msg"
 		switch sc.Target {
 		case "raw-inact":
 			fc := &fakeConn{context.Background()}
@@ -167,11 +168,26 @@ func Exec(t *testing.T, sc Scenario, r *evid.Run) *evid.Failure {
 			s = subject{
 				tick: func() { tk.Tick(); bubble.Wait(); scan() },
 				recv: func() {
+					// any message from the peer counts: a request, a CoAP ping, a bare acknowledgement / a signal
 					nextMID++
-					m := refcodec.Msg{Type: peer.NON, MID: nextMID & 0xffff, Code: 2, Token: []byte{0x18, byte(nextMID)}, Opts: peer.PathOpts("x")}
+					var m refcodec.Msg
+					switch recvKind {
+					case "peerping":
+						m = refcodec.Msg{Type: peer.CON, MID: nextMID & 0xffff}
+						if !w.Datagram() {
+							m = refcodec.Msg{Code: 226, Token: []byte{0x18, byte(nextMID)}}
+						}
+					case "emptyack":
+						m = refcodec.Msg{Type: peer.ACK, MID: nextMID & 0xffff}
+						if !w.Datagram() {
+							m = refcodec.Msg{Code: 225, Token: []byte{0x18, byte(nextMID)}}
+						}
+					default:
+						m = refcodec.Msg{Type: peer.NON, MID: nextMID & 0xffff, Code: 2, Token: []byte{0x18, byte(nextMID)}, Opts: peer.PathOpts("x")}
+					}
 					w.ToLib(m)
 					bubble.Wait()
-					scan()
+					_ = w.FromLib() // the answer to the peer's ping is not one of our pings
 				},
 				pong: func(i int) bool {
 					scan()
@@ -206,8 +222,10 @@ func Exec(t *testing.T, sc Scenario, r *evid.Run) *evid.Failure {
 			switch e.Kind {
 			case "tick":
 				s.tick()
-			case "msg":
+			case "msg", "peerping", "emptyack":
+				recvKind = e.Kind
 				s.recv()
+				rec.kind = "msg"
 			case "pong":
 				idx := s.pings() - 1 - e.Back
 				rec.pongIdx = idx
@@ -310,7 +328,7 @@ func gen(t *rapid.T) Scenario {
 	n := rapid.IntRange(1, 16).Draw(t, "nev")
 	silent := rapid.IntRange(0, 4).Draw(t, "silent") == 0
 	for i := 0; i < n; i++ {
-		e := Ev{Kind: rapid.SampledFrom([]string{"tick", "tick", "tick", "msg", "pong"}).Draw(t, "kind"), GapMs: rapid.SampledFrom(gaps).Draw(t, "gap")}
+		e := Ev{Kind: rapid.SampledFrom([]string{"tick", "tick", "tick", "tick", "tick", "msg", "peerping", "emptyack", "pong", "pong"}).Draw(t, "kind"), GapMs: rapid.SampledFrom(gaps).Draw(t, "gap")}
 		if silent {
 			e.Kind = "tick"
 			e.GapMs = rapid.SampledFrom([]int{p / 3, p / 2, p - 1}).Draw(t, "sgap")
